@@ -178,6 +178,24 @@ def main(tier: str, seed: int) -> int:
                             {'kind': 'expdecay_monotone'})
                 break
             prev = got
+        # the schedule is a FUNCTION of the step: the same object evaluated
+        # again at earlier steps (a rolled-back or second preconditioner), in
+        # descending and in shuffled order, returns the same values
+        import random as _r
+        ks = list(range(0, 64)) + [100, 1000]
+        orders = [list(reversed(ks)), _r.Random(seed).sample(ks, len(ks))]
+        for f2, order in ((f, orders[0]), (exp_decay_factor_averaging(cap),
+                                           orders[1])):
+            for k in order:
+                m = max(k, 1)
+                want = min(Fraction(m - 1, m), Fraction(cap))
+                nexp += 1
+                if abs(Fraction(f2(k)) - want) > Fraction(1, 10 ** 15):
+                    v.violation(
+                        f'exp_decay({cap})({k}) = {f2(k)} when evaluated out '
+                        f'of order, spec {float(want)}',
+                        {'kind': 'expdecay_purity'})
+                    break
     for bad_cap in (0, -1, -0.5):
         try:
             exp_decay_factor_averaging(bad_cap)
